@@ -348,7 +348,7 @@ func c08ValueStoreGC(k *eng.Check) {
 		return f != nil && strings.HasPrefix(eng.Name(f), "(*store/types.ValueStore).gcAddChunk")
 	}
 	nClosures, nAdds, nSp := 0, 0, 0
-	for _, cl := range eng.WithAnons(gcFn) {
+	for _, cl := range c08GCBodyCandidates(gcFn) {
 		begins := eng.Calls(cl, mBegin, false)
 		if len(begins) == 0 {
 			continue
@@ -458,7 +458,11 @@ func c08ValueStoreGC(k *eng.Check) {
 	for _, b := range gcFn.Blocks {
 		for _, in := range b.Instrs {
 			if call, ok := in.(*ssa.Call); ok {
-				if f := eng.FuncOf(call.Call.Value); f != nil && f.Parent() == gcFn && len(eng.Calls(f, mBegin, false)) > 0 {
+				f := eng.FuncOf(call.Call.Value)
+				if f == nil {
+					f = call.Call.StaticCallee()
+				}
+				if f != nil && (f.Parent() == gcFn || (f.Parent() == nil && f != gcFn && eng.FuncPkg(f) == eng.FuncPkg(gcFn))) && len(eng.Calls(f, mBegin, false)) > 0 {
 					bodies.AddI(call)
 				}
 			}
@@ -588,4 +592,36 @@ func c08GcPhases(k *eng.Check) {
 		ok = ok && w
 	}
 	k.Require("gc-uses-store-walker", eng.Name(fn), "the reference walker handed to MarkAndSweepChunks dispatches through WalkAddrsFromNomsValue (flatbuffer and old-format chunks)", ok, c.Pos(fn.Pos()), "the mark phase does not use the value store's reference walker")
+}
+
+// c08GCBodyCandidates: the functions in which a collection body may live: ValueStore.GC, its function literals, and
+// (one level) same-package functions/methods they call statically, with their literals — a body extracted into a
+// method is still found.
+func c08GCBodyCandidates(gcFn *ssa.Function) []*ssa.Function {
+	out := eng.WithAnons(gcFn)
+	seen := map[*ssa.Function]bool{}
+	for _, f := range out {
+		seen[f] = true
+	}
+	for _, f := range append([]*ssa.Function{}, out...) {
+		for _, b := range f.Blocks {
+			for _, in := range b.Instrs {
+				ci, ok := in.(ssa.CallInstruction)
+				if !ok {
+					continue
+				}
+				h := ci.Common().StaticCallee()
+				if h == nil || seen[h] || len(h.Blocks) == 0 || h.Parent() != nil || eng.FuncPkg(h) != eng.FuncPkg(gcFn) {
+					continue
+				}
+				for _, g := range eng.WithAnons(h) {
+					if !seen[g] {
+						seen[g] = true
+						out = append(out, g)
+					}
+				}
+			}
+		}
+	}
+	return out
 }
